@@ -90,6 +90,11 @@ def run(tier, seed):
         data.append(("sym", sname))
     for st in ["", "a", "a b", 'q"q', "back\\slash", "\\", "\\\\", 'mix\\"', "new\nline", "tab\there", "(paren)", "semi;colon", "'quote'", ",comma,", "%pct", "é猫", "\\n", '"']:
         data.append(("str", st))
+    # lists headed by the symbol list: exactly ONE such head in front of characters only is the string form
+    L, C = ("sym", "list"), lambda ch: ("chr", ord(ch))
+    for items in [[L], [L, L], [L, C("a")], [L, L, C("a")], [L, L, L, C("a"), C("b")], [L, ("num", 1)], [L, C("a"), ("num", 1)], [L, C("a"), L], [C("a"), L],
+                  [L, ("list", (L, C("x")))], [("list", (L, L, C("x"))), L, L], [L, L, ("num", 0)]]:
+        data.append(("list", tuple(items)))
     n = 300 if tier == "quick" else 8000
     for i in range(n):
         t = gen_data.gen_tree(rng, rng.range(0, 4))
